@@ -116,6 +116,11 @@ def count (w : Who) (db : DB) (col : Nat) : Nat := (scan w db col).length
 def commits (w : Who) (db : DB) : List String :=
   (db.filter (canRead w)).map (·.label)
 
+/-- the commit history entered at a commit of document `l` named by its cid: the commits of a document the requester
+    can not read are skipped wherever the walk starts (`dagScanNode.Next`) -/
+def commitsByCid (w : Who) (db : DB) (l : String) : List String :=
+  ((db.filter (fun d => d.label == l)).filter (canRead w)).map (·.label)
+
 /-! ## Mutations -/
 
 inductive Op where
